@@ -28,6 +28,7 @@ import (
 	"verif/keys"
 	"verif/ref/refauth"
 	"verif/ref/refesl"
+	"verif/shim/vtime"
 )
 
 var c11Predefined = []efivar.Efivar{efivar.SecureBoot, efivar.SetupMode, efivar.PK, efivar.PKDefault, efivar.KEK, efivar.KEKDefault, efivar.Db, efivar.DbDefault,
@@ -90,6 +91,16 @@ func c11Values() []struct {
 		panic(err)
 	}
 	empty := signature.SignatureDatabase{}
+	// the value SignEFIVariable returns, after it has been looked at and serialised once already
+	// (written to another store, dumped to a file): writing it again must write the same bytes
+	vtime.Set(time.Date(2024, 5, 6, 7, 8, 9, 0, time.UTC))
+	_, su, err := signature.SignEFIVariable(efivar.Db, &ldb3, memoSignerFor(1), keys.C(1))
+	if err != nil {
+		panic(err)
+	}
+	suEnc := append([]byte{}, su.Bytes()...)
+	var scratch bytes.Buffer
+	su.Marshal(&scratch)
 	return []struct {
 		name string
 		m    efivar.Marshallable
@@ -100,6 +111,7 @@ func c11Values() []struct {
 		{"raw-0", rawval{}, nil},
 		{"raw-1", rawval{0x5a}, []byte{0x5a}},
 		{"raw-4096", rawval(fill(4096, 9)), fill(4096, 9)},
+		{"signed-update object that was serialised once before", su, suEnc},
 	}
 }
 
